@@ -116,7 +116,11 @@ def texts(max_len=64):
         st.sampled_from(["\u0000", "é", "́", "€", "\U0001f600",
                          "\U0010ffff", "‍", "﻿", "\u007f", "\u0080",
                          "߿", "ࠀ", "￿", "\U00010000"]))
-    return st.text(alphabet=alpha, max_size=max_len)
+    plain = st.text(alphabet=alpha, max_size=max_len)
+    # characters that codecs treat specially at the edges of a string (BOM, NUL, non-characters, combining marks)
+    edge = st.sampled_from(["\ufeff", "\ufffe", "\u0000", "\uffff", "\u0301", "\u200d", "\U0010ffff", " ", "\n", "\ufeff\ufeff"])
+    return st.one_of(plain, plain, st.tuples(edge, plain).map(lambda t: (t[0] + t[1])[:max_len]),
+                     st.tuples(plain, edge).map(lambda t: (t[0][:max_len - len(t[1])] + t[1])), edge)
 
 
 # ---- addresses ---------------------------------------------------------------
